@@ -13,9 +13,41 @@
 #include <unistd.h>
 #include <sys/wait.h>
 #include <signal.h>
+#ifdef _OPENMP
+#include <omp.h>
+#endif
 
 namespace vh
 {
+// delivery environments of the OpenMP runtime around a library call:
+//   0 plain; 1 the call is made from inside an active parallel region (nesting is off by default: every region of the
+//   library gets a team of ONE while omp_get_max_threads() and the requested counts are unchanged); 2 / 3 the
+//   process-wide thread-count setting left behind by somebody else is 1 / 5 when the call starts
+template <class F>
+static inline void with_env(int env, F f)
+{
+#ifdef _OPENMP
+    if (env == 1)
+    {
+#pragma omp parallel num_threads(2)
+        {
+            if (omp_get_thread_num() == 0)
+                f();
+        }
+        return;
+    }
+    if (env == 2 || env == 3)
+    {
+        int old = omp_get_max_threads();
+        omp_set_num_threads(env == 2 ? 1 : 5);
+        f();
+        omp_set_num_threads(old);
+        return;
+    }
+#endif
+    f();
+}
+
     static const uint64_t PRIME = 0xFFFFFFFF00000001ULL;
 
     struct Rng
